@@ -10,8 +10,8 @@ PROP = {
             "1e-3 about an axis that is not a coordinate axis, or it lies within 1e-3 of a branch threshold of from_rotation_axes or of a half turn; an affine case when its rotation "
             "part is such a rotation (2D: angle not a multiple of pi/2); a chain when it has at least 2 edges. distinct = distinct hash of (kind, scalar type, backend, input bits).",
     "builds": {
-        "quick": [B("stable"), B("nightly", 0.25, False)],
-        "thorough": [B("stable"), B("nightly", 0.5, False)],
+        "quick": [B("stable"), B("fma", 0.25), B("nightly", 0.25, False)],
+        "thorough": [B("stable"), B("fma", 0.5), B("nightly", 0.5, False)],
     },
     "volume": {"quick": 5},
     "technique": "property-based testing: proptest generators of unit quaternions (uniform S^3, near-identity, near-half-turn, single-axis, placed on every branch threshold), affine maps and "
